@@ -12,7 +12,7 @@ are evaluated on every ARRIVAL (also arrivals at already-seen states):
            unchanged.  Process-wide hidden state survives the replays inside a worker, which is what
            makes (iii) bite; forward and reversed frontier orders must produce identical batteries.
 """
-import collections, hashlib
+import collections, hashlib, itertools
 from ..ref import cell as RC
 from ..ref import bits as RBITS
 from ..ref import hashmap as RH
@@ -37,6 +37,9 @@ LEVEL_TEXT = ('Explicit-state model checking of the real objects: all operation 
 LEVEL_NOTE = ('trusted: the functional reference pool (mc/props/c08.py model functions over mc/ref/cell.py); canonical state keeps every observable field '
               '(no symmetry reduction, so no soundness argument is needed for the abstraction)')
 TECHNIQUE = 'explicit-state BFS over operation histories on the real objects with a lock-step functional reference model and a memoised observer battery'
+RULE += (" Observation schedules: for the initial pools and every state reachable in <= 3 (thorough 4) events that holds a new set of cells, ALL sequences of "
+         "2..3 (4) observations over (cell x {to_boc, order}) and the deserialize() call of two Boc parser objects, and all of 2 (3) over (cell x {to_boc, to_boc "
+         "with index+CRC+cache bits, order(), order({}), hash/repr/depth}), run on a fresh replay: each result must equal the same observation made alone.")
 RULE += " Parse battery: on the first arrival at every canonical state the library's parsers (VmStack, MessageAny, StateInit, CurrencyCollection, HashMap.parse, load_dict, TL deserialize) run on fixed immutable inputs written by the reference encoders; every result must equal the first one obtained in the process."
 ASSUMPTIONS = ['histories longer than the depth bound and pools larger than 6 objects are not explored']
 NOT_ASSERTED = ['direct mutation of a cell\'s own bits/refs containers from outside (an attack on the value, not a use of it)',
@@ -47,11 +50,11 @@ POOLS = ['builder', 'boc', 'plain', 'dict', 'msg']
 
 
 def BOUNDS(tier):
-    return {'depth': 4 if tier == 'quick' else 5, 'max_pool': MAXPOOL, 'initial_pools': POOLS, 'frontier_orders': ['forward', 'reversed'], 'exhaustive': True}
+    return {'depth': 4 if tier == 'quick' else 5, 'observation_schedules': {'base_states_depth': 3 if tier == 'quick' else 4, 'schedule_length': 3 if tier == 'quick' else 4}, 'max_pool': MAXPOOL, 'initial_pools': POOLS, 'frontier_orders': ['forward', 'reversed'], 'exhaustive': True}
 
 
 def REQUIRED_COVER(tier):
-    return {'pool:plain', 'pool:dict', 'pool:msg', 'ev:store_bits_of', 'ev:a_append', 'ev:s_refs_pop', 'battery-rearrival', 'order:reversed'}
+    return {'pool:plain', 'pool:dict', 'pool:msg', 'ev:store_bits_of', 'ev:a_append', 'ev:s_refs_pop', 'battery-rearrival', 'order:reversed', 'schedules'}
 
 
 # ------------------------------------------------------------------ reference (functional) pool
@@ -620,4 +623,147 @@ def shards(tier, seed):
         for part in range(parts):
             out.append({'fn': 'shard_bfs', 'args': {'kind': kind, 'depth': depth, 'reverse': False, 'part': part, 'parts': parts}, 'prio': 2})
             out.append({'fn': 'shard_bfs', 'args': {'kind': kind, 'depth': depth - 1 if tier == 'quick' else depth, 'reverse': True, 'part': part, 'parts': parts}, 'prio': 1})
+        sp = 2 if tier == 'quick' else 8
+        for part in range(sp):
+            out.append({'fn': 'shard_schedules', 'args': {'kind': kind, 'depth': 3 if tier == 'quick' else 4, 'length': 3 if tier == 'quick' else 4, 'part': part, 'parts': sp}, 'prio': 1})
     return out
+
+
+# ------------------------------------------------------------------ observation schedules
+# The battery above observes every cell the same number of times in the same order, so hidden state that only shows when two
+# observers / two roots are called in a PARTICULAR multiplicity (a per-object traversal counter, a parser object that keeps its
+# read position) is invisible to it.  Here the observations themselves are the events: for every base state (the initial pools and
+# every state reachable in <= 2 steps that holds a new set of cells) ALL sequences of <= L observations over (object, observer)
+# run on a fresh replay; every single result must equal the result of the same observation made alone on a fresh replay
+# (which the battery compares with the reference model), and the pool must stay as it was.
+OBS_CELL = ['boc', 'order', 'boc_full', 'order_arg', 'hash']
+OBS_CELL_LEAN = ['boc', 'order']
+
+
+def _obs(pool, bocs, ev):
+    kind, i, name = ev
+    if kind == 'P':
+        from pytoniq_core.boc import Cell, Slice
+        roots = bocs[i].deserialize(Cell if name == 'deser' else None)
+        return tuple((type(r).__name__, r.hash, r.bits.to01(), len(r.refs)) for r in roots)
+    o = pool[i]
+    if name == 'boc':
+        return o.to_boc()
+    if name == 'boc_full':
+        return o.to_boc(has_idx=True, hash_crc32=True, has_cache_bits=True)
+    if name == 'order':
+        return tuple(c.hash for c in o.order())
+    if name == 'order_arg':
+        return tuple(c.hash for c in o.order({}))
+    if name == 'hash':
+        return (o.hash, hash(o), repr(o), o.get_depth(), o.calculate_representation_hash())
+    raise AssertionError(name)
+
+
+def _sched_pool(kind, hist):
+    from pytoniq_core.boc.deserialize import Boc
+    res = run_history(kind, hist)
+    if 'pool' not in res or res.get('stop') or 'bad' in res:
+        return None
+    pool, mpool = res['pool'], res['mpool']
+    # parser objects over bytes written by the REFERENCE encoder (no library call made to obtain them)
+    cells = [m.rc for m in mpool if mkind(m) == 'C']
+    bocs = [Boc(RB.encode([cells[0]])), Boc(RB.encode([cells[-1], cells[0]], has_crc=True, has_idx=True).hex())]
+    return pool, mpool, bocs
+
+
+def sched_events(mpool, lean):
+    ev = []
+    for i, m in enumerate(mpool):
+        if mkind(m) == 'C':
+            ev += [('C', i, n) for n in (OBS_CELL_LEAN if lean else OBS_CELL)]
+    ev += [('P', 0, 'deser'), ('P', 1, 'deser')] + ([] if lean else [('P', 0, 'deser_default')])
+    return ev
+
+
+def case_schedules(rec, kind, hist, length, lean):
+    hist = [tuple(e) for e in hist]
+    args = {'kind': kind, 'hist': [list(e) for e in hist], 'length': length, 'lean': lean}
+    rec.case('schedules')
+    first = _sched_pool(kind, hist)
+    if first is None:
+        return
+    evs = sched_events(first[1], lean)
+    base = {}
+    for ev in evs:
+        pool, mpool, bocs = _sched_pool(kind, hist)
+        try:
+            base[ev] = _obs(pool, bocs, ev)
+        except Exception as e:
+            rec.violation(f'schedule:raises:{ev[2]}', f'pool {kind}, history {hist}: observation {ev} alone raised {exc_name(e)}: {e}', 'case_schedules', args)
+            return
+    canon = m_canon(first[1])
+    n = 0
+    for L in range(2, length + 1):
+        for seq in itertools.product(evs, repeat=L):
+            if len(set(seq)) == 1 and L > 2:
+                continue
+            pool, mpool, bocs = _sched_pool(kind, hist)
+            rec.trans()
+            n += 1
+            for k, ev in enumerate(seq):
+                try:
+                    got = _obs(pool, bocs, ev)
+                except Exception as e:
+                    got = ('RAISED', exc_name(e), str(e)[:80])
+                if got != base[ev]:
+                    rec.violation(f'schedule:{ev[2]}', f'pool {kind}, history {hist}: observation #{k} {ev} of the schedule {list(seq)} gives another result '
+                                  f'than the same observation made alone ({str(got)[:120]} vs {str(base[ev])[:120]}): results depend on earlier calls',
+                                  'case_schedules', args)
+                    rec.outcome('SCHEDULE')
+                    return
+            if r_canon(pool) != canon:
+                rec.violation('schedule:mutates', f'pool {kind}, history {hist}: observations {list(seq)} changed the pool', 'case_schedules', args)
+                return
+            rec.trace()
+    rec.state(('sched', kind, canon))
+    rec.nontriv(('sched', kind, canon))
+    rec.covered('schedules', f'schedules:L{length}')
+    rec.notes['schedules'] = rec.notes.get('schedules', 0) + n
+    rec.outcome('sched-ok')
+
+
+def sched_bases(kind, depth):
+    """histories of <= depth events (model only) that reach a new multiset of cells"""
+    out, seen = [], set()
+    frontier = collections.deque([[]])
+    seen_states = set()
+    while frontier:
+        hist = frontier.popleft()
+        mpool = model_initial(kind)
+        skip = False
+        for ev in hist:
+            mpool, mo = m_apply(mpool, ev)
+            if mo in ('EXC', '?EXC'):
+                skip = True
+        if skip:
+            continue
+        canon = m_canon(mpool)
+        if canon in seen_states:
+            continue
+        seen_states.add(canon)
+        cells = tuple(c for c in canon if c[0] == 'C')
+        if cells not in seen:
+            seen.add(cells)
+            out.append(hist)
+        if len(hist) < depth:
+            for ev in enabled(mpool, kind):
+                frontier.append(hist + [ev])
+    return out
+
+
+def shard_schedules(rec, kind, depth, length, part, parts):
+    bases = sched_bases(kind, depth)
+    for n, hist in enumerate(bases):
+        if n % parts == part:
+            case_schedules(rec, kind, hist, length, True)             # few observers, long schedules
+            case_schedules(rec, kind, hist, length - 1, False)        # all observers, shorter schedules
+    rec.notes[f'sched-bases:{kind}:{depth}'] = len(bases)
+    if part == 0:
+        rec.sample({'pool': kind, 'base_history': bases[-1], 'schedules': f'all sequences of 2..{length} observations over (cell x {OBS_CELL_LEAN}) + Boc.deserialize, of 2..{length - 1} over (cell x {OBS_CELL})',
+                    'oracle': 'each result equals the observation made alone on a fresh replay; pool unchanged'})
